@@ -1,0 +1,305 @@
+//go:build verif
+
+// Contracts for contract-based deductive verification (checked by /verif/govc).
+// This file is comment-only and compiled only with the build tag "verif".
+// C02 (balloons partition CPUs), C09 (no leaks): CPU bookkeeping of the balloons policy.
+
+package balloons
+
+// ---- the CPU allocator is an interface here: ASSUMED contracts, copied from the verified contracts of
+// (*cpuAllocator).AllocateCpus / ReleaseCpus in pkg/cpuallocator/verif_contracts.go (C08). Their precondition
+// candidatesOK (well-formed topology cache, candidates online and known to sysfs; T4) cannot be stated on the
+// interface and is assumed to hold for subsets of p.allowed.
+//@ iface github.com/containers/nri-plugins/pkg/cpuallocator.CPUAllocator.AllocateCpus
+//@   requires arg1 >= 0
+//@   modifies *arg0
+//@   ensures arg1 > old(*arg0).Size() ==> result1 != nil && (*arg0).Equals(old(*arg0))
+//@   ensures arg1 <= old(*arg0).Size() && result1 == nil ==> result0.Size() == arg1 && result0.IsSubsetOf(old(*arg0)) && (*arg0).Equals(old(*arg0).Difference(result0))
+//@   ensures arg1 <= old(*arg0).Size() && result1 != nil ==> (*arg0).Equals(old(*arg0))
+//@ iface github.com/containers/nri-plugins/pkg/cpuallocator.CPUAllocator.ReleaseCpus
+//@   requires arg1 >= 0 && arg1 <= (*arg0).Size()
+//@   modifies *arg0
+//@   ensures arg1 <= old(*arg0).Size() && result1 == nil ==> (*arg0).Size() == arg1 && (*arg0).IsSubsetOf(old(*arg0)) && result0.Equals(old(*arg0).Difference(*arg0))
+//@   ensures result1 != nil ==> (*arg0).Equals(old(*arg0))
+//@ iface github.com/containers/nri-plugins/pkg/cpuallocator.CPUAllocator.GetCPUPriorities
+//@   modifies nothing
+
+// ---- CPU classes: the cpu controller's class assignment, abstracted to "class of each CPU" (ASSUMED model of
+// cpucontrol.Assign: the given CPUs get the class, every other CPU keeps its class; it never fails).
+//@ ghost cpuClass arr[int]string
+//@ assume-contract github.com/containers/nri-plugins/pkg/resmgr/control/cpu.Assign
+//@   modifies cpuClass
+//@   ensures result == nil
+//@   ensures forall x int :: cpuClass[x] == ((x in cpus) ? class : old(cpuClass[x]))
+
+//@ func (*balloons).forgetCpuClass
+//@   requires p != nil && p.bpoptions != nil
+//@   modifies cpuClass
+//@   ensures[C02] forall x int :: cpuClass[x] == ((x in bln.Cpus) ? p.bpoptions.IdleCpuClass : old(cpuClass[x]))
+//@ func (*balloons).useCpuClass
+//@   requires p != nil
+//@   modifies cpuClass
+//@   ensures[C02] result == nil
+//@   ensures[C02] forall x int :: cpuClass[x] == ((x in bln.Cpus) ? bln.Def.CpuClass : old(cpuClass[x]))
+
+// ---- deleteBalloon: the balloon leaves p.balloons, ALL its CPUs (whatever MinCpus says) return to p.freeCpus and
+// get the idle class again; the freed CPUs are offered to the balloons that share idle CPUs (re-pinning them).
+//@ func (*balloons).deleteBalloon
+//@   requires p != nil && bln != nil && bln.Def != nil && p.bpoptions != nil && p.cpuAllocator != nil && p.cch != nil && p.cpuTree != nil
+//@   modifies p.balloons, p.freeCpus, bln.Cpus, cpuClass, comp Balloon.SharedIdleCpus, comp Balloon.Mems, pinnedCpus, pinnedMems, cpuShares
+//@   ensures[C02,C09] p.freeCpus.Equals(old(p.freeCpus.Union(bln.Cpus)))
+//@   ensures[C02,C09] forall x int :: x in old(bln.Cpus) ==> cpuClass[x] == p.bpoptions.IdleCpuClass
+//@   ensures[C02] forall x int :: !(x in old(bln.Cpus)) ==> cpuClass[x] == old(cpuClass[x])
+//@   ensures[C02,C09] !(bln in p.balloons)
+//@   ensures[C02,C09] len(p.balloons) <= old(len(p.balloons))
+//@   ensures[C02,C09] forall k int :: 0 <= k && k < len(p.balloons) ==> p.balloons[k] in old(p.balloons)
+//@   ensures[C02,C09] old(oldSlice(p.balloons)) ==> (forall k int :: 0 <= k && k < old(len(p.balloons)) && old(p.balloons[k]) != bln ==> old(p.balloons[k]) in p.balloons)
+// C02 completeness of idle sharing ("shared idle CPUs include every idle non-isolated CPU in the configured sharing
+// scope"), for the one scope that needs no topology knowledge (system = the root of the CPU tree): every remaining
+// non-empty balloon that shares system-wide is offered the freed non-isolated CPUs. (Relative to the assumed
+// contract of shareIdleCpus; before the fix 41f85b8 deleteBalloon did not re-share at all.)
+//@   ensures[C02] forall i int :: 0 <= i && i < len(p.balloons) && sharesSystemWide(p, p.balloons[i]) ==>
+//@       old(bln.Cpus).Difference(sysIsolated(p.options.System)).Intersection(p.cpuTree.cpus).IsSubsetOf(p.balloons[i].SharedIdleCpus)
+// C02 "shared idle CPUs are never part of any balloon nor isolated" is kept
+//@   ensures[C02] old(sharedIdleOK(p) && oldSlice(p.balloons)) ==> sharedIdleOK(p)
+//@ loop 0 in (*balloons).deleteBalloon at "range p.balloons"
+//@   invariant -1 <= rangeindex && rangeindex < len(p.balloons) && newobj(remainingBalloons) && len(remainingBalloons) <= rangeindex + 1
+//@   invariant forall j int :: 0 <= j && j < len(remainingBalloons) ==> remainingBalloons[j] != bln && remainingBalloons[j] in p.balloons
+//@   invariant forall k int :: 0 <= k && k <= rangeindex && p.balloons[k] != bln ==> p.balloons[k] in remainingBalloons
+//@   invariant old(oldSlice(p.balloons)) ==> (forall i int :: 0 <= i && i < len(p.balloons) ==> p.balloons[i] == old(p.balloons[i]))
+//@   invariant old(sharedIdleOK(p) && oldSlice(p.balloons)) ==> (forall j int :: 0 <= j && j < len(remainingBalloons) ==>
+//@       remainingBalloons[j].SharedIdleCpus.IsSubsetOf(p.freeCpus.Difference(sysIsolated(p.options.System))))
+
+// ---- what the policy tells the runtime about a container (thin ASSUMED model of the cache.Container setters) ----
+//@ ghost pinnedCpus arr[cache.Container]string
+//@ ghost pinnedMems arr[cache.Container]string
+//@ iface github.com/containers/nri-plugins/pkg/resmgr/cache.Container.SetCpusetCpus
+//@   modifies pinnedCpus
+//@   ensures pinnedCpus == upd(old(pinnedCpus), self, arg0)
+//@ iface github.com/containers/nri-plugins/pkg/resmgr/cache.Container.SetCpusetMems
+//@   modifies pinnedMems
+//@   ensures pinnedMems == upd(old(pinnedMems), self, arg0)
+
+// ---- topology-aware choice of candidate CPUs (cputree.go): type-level contract of ResizeCpus (DESIGN.md C02) -----
+// (removeFrom is only meaningful - and only used by resizeBalloon - when deflating: resizeCpusWithDynamicDeviceHints
+// returns a removeFrom that may contain just-added CPUs when inflating; the sizes are guaranteed for disjoint
+// current/free sets, which is what resizeBalloon passes)
+//@ pure resizeCandidatesOK(cur cpuset.CPUSet, free cpuset.CPUSet, delta int, addFrom cpuset.CPUSet, removeFrom cpuset.CPUSet, err error) bool =
+//@    addFrom.IsSubsetOf(free) && (delta <= 0 ==> removeFrom.IsSubsetOf(cur)) &&
+//@    (cur.Intersection(free).IsEmpty() && err == nil && delta > 0 ==> addFrom.Size() >= delta) &&
+//@    (cur.Intersection(free).IsEmpty() && err == nil && delta < 0 ==> removeFrom.Size() >= -delta)
+// ASSUMED for ResizeCpus as a whole (its body is nextCpuResizer over the stage list headed by
+// resizeCpusOnlyIfNecessary, whose verified contract is exactly this; the dynamic dispatch over the list makes
+// the head's stronger guarantee invisible to the engine). The stages are verified in verif_contracts_cputree.go.
+//@ assume-contract (*cpuTreeAllocator).ResizeCpus
+//@   modifies maps map[string][]cpuset.CPUSet
+//@   ensures resizeCandidatesOK(currentCpus, freeCpus, delta, result0, result1, result2)
+
+// virtual devices of load classes only live in the allocator options (not verified; frame ASSUMED)
+//@ assume-contract (*balloons).updateLoadedVirtDevsInAllocatorOptions
+//@   modifies maps map[string][]cpuset.CPUSet
+
+// ---- idle CPU sharing (ASSUMED for now) ---------------------------------------------------------------------------
+// shareIdleCpus walks the CPU tree with a callback (DepthFirstWalk is recursive and takes an unnamed func type: not
+// verifiable with this engine). ASSUMED: every balloon of the policy loses removeCpus from its shared idle CPUs and
+// gains at most the non-isolated addCpus; the returned balloons are balloons of the policy.
+//@ pure sysIsolated(s sysfs.System) cpuset.CPUSet
+//@ pure sharesSystemWide(p *balloons, b *Balloon) bool = p.cpuTree.level == CPUTopologyLevelSystem && b.Def.ShareIdleCpusInSame == CPUTopologyLevelSystem && !b.Cpus.IsEmpty()
+//@ assume-contract (*balloons).shareIdleCpus
+//@   modifies comp Balloon.SharedIdleCpus
+//@   ensures forall i int :: 0 <= i && i < len(p.balloons) ==>
+//@       p.balloons[i].SharedIdleCpus.IsSubsetOf(old(p.balloons[i].SharedIdleCpus).Difference(removeCpus).Union(addCpus.Difference(sysIsolated(p.options.System))))
+//@   ensures forall b *Balloon :: !(b in p.balloons) ==> b.SharedIdleCpus == old(b.SharedIdleCpus)
+// ... and, for the one scope that needs no topology knowledge (system-wide sharing, the root of the CPU tree): a
+// non-empty balloon keeps what it shared (minus removeCpus) and gains every non-isolated addCpus of the tree.
+//@   ensures forall i int :: 0 <= i && i < len(p.balloons) && sharesSystemWide(p, p.balloons[i]) ==>
+//@       old(p.balloons[i].SharedIdleCpus).Difference(removeCpus).Union(addCpus.Difference(sysIsolated(p.options.System)).Intersection(p.cpuTree.cpus)).IsSubsetOf(p.balloons[i].SharedIdleCpus)
+// What IS verified of shareIdleCpus: its tree-walk callback. On a node of the balloon's sharing scope it collects the
+// node's addCpus iff the balloon has CPUs in that node, collects only addCpus, and never ends the walk early (it
+// answers "skip children", so that EVERY node of the scope level is visited: completeness of idle sharing).
+//@ func (*balloons).shareIdleCpus$1
+//@   requires t != nil && bln != nil
+//@   ensures[C02] t.level != topoLevel ==> result == nil && idleCpusInTopoLevel.Equals(old(idleCpusInTopoLevel))
+//@   ensures[C02] t.level == topoLevel ==> result == WalkSkipChildren
+//@   ensures[C02] t.level == topoLevel && !t.cpus.Intersection(bln.Cpus).IsEmpty() ==> idleCpusInTopoLevel.Equals(old(idleCpusInTopoLevel).Union(t.cpus.Intersection(addCpus)))
+//@   ensures[C02] t.level == topoLevel && t.cpus.Intersection(bln.Cpus).IsEmpty() ==> idleCpusInTopoLevel.Equals(old(idleCpusInTopoLevel))
+
+// C02 "shared idle CPUs are never part of any balloon nor kernel-isolated": they are a subset of p.freeCpus (which the
+// balloons' own CPUs are disjoint from) without the isolated CPUs.
+// (oldSlice: the backing array of the slice is nil or an allocated object; the engine assumes this only for values the
+// CODE loads, not for values only specifications read, so it is made explicit where needed)
+//@ pure oldSlice(bs []*Balloon) bool = alive(bs)
+//@ pure sharedIdleOK(p *balloons) bool = forall i int :: 0 <= i && i < len(p.balloons) ==>
+//@       p.balloons[i].SharedIdleCpus.IsSubsetOf(p.freeCpus.Difference(sysIsolated(p.options.System)))
+
+// ---- resizeBalloon -------------------------------------------------------------------------------------------------
+// number of CPUs a request of m milli-CPUs is clamped to by a well-formed (boundsOK) balloon type d (0 = no limit)
+//@ pure wantCpus(m int) int = (m + 999) / 1000
+//@ pure clampCpus(d *BalloonDef, n int) int = (d.MinCpus > 0 && n < d.MinCpus) ? d.MinCpus : ((d.MaxCpus > NoLimit && n > d.MaxCpus) ? d.MaxCpus : n)
+
+//@ func (*balloons).resizeBalloon
+//@   requires p != nil && bln != nil && bln.Def != nil && p.bpoptions != nil && p.cpuAllocator != nil && bln.cpuTreeAlloc != nil
+//@   requires p.cch != nil && p.cpuTree != nil
+//@   requires bln.Cpus.Intersection(p.freeCpus).IsEmpty()
+//@   modifies p.freeCpus, bln.Cpus, comp Balloon.SharedIdleCpus, comp Balloon.Mems, cpuClass, pinnedCpus, pinnedMems, cpuShares, maps map[string][]cpuset.CPUSet
+//@   let target = clampCpus(bln.Def, wantCpus(newMilliCpus))
+//@   ensures[C02] boundsOK(bln.Def) ==> (newMilliCpus >= 0 ==> bln.Def.MinCpus <= target) && (bln.Def.MaxCpus > NoLimit ==> target <= bln.Def.MaxCpus)
+//@   ensures[C02] result == nil && boundsOK(bln.Def) ==> bln.Cpus.Size() == target
+//@   ensures[C02,C09] result != nil ==> bln.Cpus.Equals(old(bln.Cpus)) && p.freeCpus.Equals(old(p.freeCpus))
+//@   ensures[C02] bln.Cpus.Intersection(p.freeCpus).IsEmpty()
+//@   ensures[C02,C09] bln.Cpus.Union(p.freeCpus).Equals(old(bln.Cpus.Union(p.freeCpus)))
+//@   ensures[C02] result == nil && boundsOK(bln.Def) && target >= old(bln.Cpus.Size()) ==> old(bln.Cpus).IsSubsetOf(bln.Cpus)
+//@   ensures[C02] result == nil && boundsOK(bln.Def) && target <= old(bln.Cpus.Size()) ==> bln.Cpus.IsSubsetOf(old(bln.Cpus))
+//@   ensures[C02] old(sharedIdleOK(p) && oldSlice(p.balloons)) ==> sharedIdleOK(p)
+// (the conjunct p.balloons[i] == old(p.balloons[i]) also serves as an instantiation hint across the allocation of
+// the variadic argument slice of updatePinning)
+//@ pure sharedIdleKept(p *balloons) bool = forall i int :: 0 <= i && i < len(p.balloons) ==> p.balloons[i] == old(p.balloons[i]) &&
+//@       p.balloons[i].SharedIdleCpus.IsSubsetOf(p.freeCpus.Difference(sysIsolated(p.options.System)))
+//@ assert[C02] in (*balloons).resizeBalloon at "- resize successful": old(sharedIdleOK(p) && oldSlice(p.balloons)) ==> sharedIdleKept(p)
+//@ assert[C02] in (*balloons).resizeBalloon at "return nil": old(sharedIdleOK(p) && oldSlice(p.balloons)) ==> sharedIdleKept(p)
+
+// ---- pinning ----------------------------------------------------------------------------------------------------------
+// further thin ASSUMED interface contracts: cache lookups and container getters do not change policy state
+//@ ghost cpuShares arr[cache.Container]int64
+//@ pure cchCtr(cch cache.Cache, id string) cache.Container
+//@ pure cchHas(cch cache.Cache, id string) bool
+//@ iface github.com/containers/nri-plugins/pkg/resmgr/cache.Cache.LookupContainer
+//@   modifies nothing
+//@   ensures result0 == cchCtr(self, arg0) && result1 == cchHas(self, arg0) && (result1 ==> result0 != nil)
+//@ iface github.com/containers/nri-plugins/pkg/resmgr/cache.Cache.LookupPod
+//@   modifies nothing
+//@ iface github.com/containers/nri-plugins/pkg/resmgr/cache.Container.SetCPUShares
+//@   modifies cpuShares
+//@   ensures cpuShares == upd(old(cpuShares), self, arg0)
+//@ iface github.com/containers/nri-plugins/pkg/resmgr/cache.Container.GetResourceRequirements
+//@   modifies nothing
+// ASSUMED: resource quantities handled by the policy are sane (0 <= milli-value <= 2^50, Kubernetes validates
+// requests to be non-negative); needed for the precondition of kubernetes.MilliCPUToShares (C20). The engine
+// does not connect (*Quantity).MilliValue() with qmilli(), hence an assumed contract of the method itself.
+//@ assume-contract k8s.io/apimachinery/pkg/api/resource.(*Quantity).MilliValue
+//@   modifies nothing
+//@   ensures 0 <= result && result <= 1 << 50
+//@ iface github.com/containers/nri-plugins/pkg/resmgr/cache.Container.GetResourceUpdates
+//@   modifies nothing
+//@ iface github.com/containers/nri-plugins/pkg/resmgr/cache.Container.PreserveMemoryResources
+//@   modifies nothing
+//@ iface github.com/containers/nri-plugins/pkg/resmgr/cache.Container.GetCpusetMems
+//@   modifies nothing
+//@ iface github.com/containers/nri-plugins/pkg/resmgr/cache.Container.MemoryTypes
+//@   modifies nothing
+//@ pure ctrID(c cache.Container) string
+//@ pure ctrPodID(c cache.Container) string
+//@ iface github.com/containers/nri-plugins/pkg/resmgr/cache.Container.GetID
+//@   modifies nothing
+//@   ensures result == ctrID(self)
+//@ iface github.com/containers/nri-plugins/pkg/resmgr/cache.Container.GetQOSClass
+//@   modifies nothing
+
+// sysfs: one hyperthread per core of a CPU set (ASSUMED: a subset of the given set, function of system and set)
+//@ pure sysSingleThread(s sysfs.System, cpus cpuset.CPUSet) cpuset.CPUSet
+//@ iface github.com/containers/nri-plugins/pkg/sysfs.System.SingleThreadForCPUs
+//@   modifies nothing
+//@   ensures result == sysSingleThread(self, arg0) && result.IsSubsetOf(arg0)
+//@ pure treeSys(t *cpuTreeNode) sysfs.System
+//@ assume-contract (*cpuTreeNode).system
+//@   modifies nothing
+//@   ensures result == treeSys(t)
+
+// memory side of pinning (libmem allocation and the memory-node strings) is outside C02: ASSUMED frames.
+// (allocMem changes libmem.Allocator internals, which no contract of this package reads.)
+//@ assume-contract (*balloons).allocMem
+//@   modifies pinnedMems
+//@ assume-contract (*balloons).closestMems
+//@   modifies nothing
+//@ effect parseIDSet pure
+//@ effect github.com/containers/nri-plugins/pkg/resmgr/lib/memory.(NodeMask).MemsetString pure
+
+//@ pure pinCPUOn(p *balloons) bool = p.bpoptions.PinCPU == nil || *p.bpoptions.PinCPU
+//@ func (*balloons).pinCpuMem
+//@   requires p != nil && p.bpoptions != nil && c != nil
+//@   modifies pinnedCpus, pinnedMems, cpuShares
+//@   ensures[C02] forall o cache.Container :: o != c ==> pinnedCpus[o] == old(pinnedCpus[o])
+//@   ensures[C02,C12] !pinCPUOn(p) ==> pinnedCpus == old(pinnedCpus) && cpuShares == old(cpuShares)
+
+// (the value told to the runtime is cpus.String() of the cpus PARAMETER: cpuset.String is not available in
+// specifications, so this is only checked as "the only SetCpusetCpus call is guarded by PinCPU")
+//@ assert[C02,C12] in (*balloons).pinCpuMem at "c.SetCpusetCpus(cpus.String())": pinCPUOn(p)
+
+//@ func (Balloon).ContainerIDs tags=C02
+//@   modifies nothing
+
+// updatePinning: every container of each given balloon is pinned to THAT balloon's own CPUs plus ITS shared idle
+// CPUs (one thread per core of exactly that set when hyperthreads are hidden for the container).
+//@ func (*balloons).updatePinning
+//@   requires p != nil && p.bpoptions != nil && p.cch != nil && p.cpuTree != nil
+//@   modifies comp Balloon.Mems, pinnedCpus, pinnedMems, cpuShares
+//@   ensures[C02] !pinCPUOn(p) ==> pinnedCpus == old(pinnedCpus)
+//@ loop 0 in (*balloons).updatePinning at "range blns"
+//@   modifies comp Balloon.Mems, pinnedCpus, pinnedMems, cpuShares
+//@   invariant -1 <= rangeindex && rangeindex < len(blns)
+//@   invariant !pinCPUOn(p) ==> pinnedCpus == old(pinnedCpus)
+//@ loop 1 in (*balloons).updatePinning at "range bln.ContainerIDs()"
+//@   modifies pinnedCpus, pinnedMems, cpuShares
+//@   invariant -1 <= rangeindex
+//@   invariant !pinCPUOn(p) ==> pinnedCpus == old(pinnedCpus)
+//@   invariant cpusNoHt.Size() == 0 || cpusNoHt.Equals(sysSingleThread(treeSys(p.cpuTree), bln.Cpus.Union(bln.SharedIdleCpus)))
+//@ assert[C02] in (*balloons).updatePinning at "p.pinCpuMem(c, allowedCpus": bln in blns &&
+//@    allowedCpus.Equals(runWithoutHyperthreads(c, bln) ? sysSingleThread(treeSys(p.cpuTree), bln.Cpus.Union(bln.SharedIdleCpus)) : bln.Cpus.Union(bln.SharedIdleCpus))
+
+// ---- creating balloons ---------------------------------------------------------------------------------------------
+// balloonsByFunc takes an unnamed func type (no functype contract possible): it is left without contract so that
+// it is inlined with the concrete closure; its loop invariants below hold for every pure predicate f.
+//@ loop 0 in balloonsByFunc at "range balloons"
+//@   invariant -1 <= rangeindex && rangeindex < len(balloons) && newobj(blns) && len(blns) <= rangeindex + 1
+// (an invariant "forall j :: f(blns[j])" is not possible: some callers pass predicates that run loops, which
+// the engine cannot evaluate under a quantifier)
+
+//@ func (*balloons).balloonsByDef
+//@   requires p != nil
+//@   modifies nothing
+//@   ensures[C02] newobj(result) && len(result) <= len(p.balloons)
+
+// cputree: building the per-balloon allocator does not touch policy state (ASSUMED; tree copying/splitting is
+// not verified)
+//@ assume-contract (*cpuTreeNode).NewAllocator
+//@   modifies nothing
+//@   ensures fresh(result)
+//@ iface github.com/containers/nri-plugins/pkg/sysfs.System.Isolated
+//@   modifies nothing
+//@   ensures result == sysIsolated(self)
+//@ iface github.com/containers/nri-plugins/pkg/sysfs.System.CPUSet
+//@   modifies nothing
+
+// newBalloon: a new balloon of the type gets clamp(MinCpus) CPUs out of p.freeCpus; on error nothing is taken.
+//@ func (*balloons).newBalloon
+//@   requires p != nil && blnDef != nil && p.bpoptions != nil && p.options != nil && p.options.System != nil && p.cpuAllocator != nil && p.cch != nil && p.cpuTree != nil
+//@   modifies p.freeCpus, comp Balloon.SharedIdleCpus, comp Balloon.Mems, cpuClass, pinnedCpus, pinnedMems, cpuShares, maps map[string][]cpuset.CPUSet
+//@   ensures[C02,C09] result1 != nil ==> result0 == nil && p.freeCpus.Equals(old(p.freeCpus))
+//@   ensures[C02,C09] result1 == nil ==> fresh(result0) && result0.Def == blnDef && len(result0.PodIDs) == 0
+//@   ensures[C02,C09] result1 == nil ==> result0.Cpus.Intersection(p.freeCpus).IsEmpty() && result0.Cpus.Union(p.freeCpus).Equals(old(p.freeCpus))
+//@   ensures[C02] old(sharedIdleOK(p) && oldSlice(p.balloons)) ==> sharedIdleOK(p)
+//@   ensures[C02] result1 == nil && boundsOK(blnDef) && 0 <= blnDef.MinCpus && blnDef.MinCpus <= 1 << 40 ==> result0.Cpus.Size() == clampCpus(blnDef, blnDef.MinCpus)
+
+// ---- membership -----------------------------------------------------------------------------------------------------
+// assignContainer appends the container to the pod's list in THIS balloon (and to no other balloon's lists).
+//@ func (*balloons).assignContainer
+//@   requires p != nil && bln != nil && bln.PodIDs != nil && p.bpoptions != nil && p.cch != nil && p.cpuTree != nil
+//@   modifies bln.PodIDs[*], bln.Groups[*], comp Balloon.Mems, pinnedCpus, pinnedMems, cpuShares
+//@   ensures[C02] len(bln.PodIDs[ctrPodID(c)]) == old(len(bln.PodIDs[ctrPodID(c)])) + 1
+//@   ensures[C02] bln.PodIDs[ctrPodID(c)][old(len(bln.PodIDs[ctrPodID(c)]))] == ctrID(c)
+//@   ensures[C02] forall k string :: k != ctrPodID(c) ==> (k in bln.PodIDs) == old(k in bln.PodIDs) && bln.PodIDs[k] == old(bln.PodIDs[k])
+
+// balloonByContainer finds the (first) balloon of the policy that lists the container under its pod; nil means that
+// no balloon of the policy lists it.
+//@ pure listedIn(b *Balloon, c cache.Container) bool = ctrID(c) in b.PodIDs[ctrPodID(c)]
+//@ func (*balloons).balloonByContainer
+//@   requires p != nil && c != nil
+//@   modifies nothing
+//@   ensures[C02,C09] result != nil ==> result in p.balloons && listedIn(result, c)
+//@   ensures[C02,C09] result == nil ==> (forall i int :: 0 <= i && i < len(p.balloons) ==> !listedIn(p.balloons[i], c))
+//@ loop 0 in (*balloons).balloonByContainer at "range p.balloons"
+//@   invariant -1 <= rangeindex && rangeindex < len(p.balloons)
+//@   invariant forall i int :: 0 <= i && i <= rangeindex ==> !listedIn(p.balloons[i], c)
+//@ loop 1 in (*balloons).balloonByContainer at "range bln.PodIDs[podID]"
+//@   invariant -1 <= rangeindex && rangeindex < len(bln.PodIDs[podID])
+//@   invariant forall j int :: 0 <= j && j <= rangeindex ==> bln.PodIDs[podID][j] != cID
